@@ -29,7 +29,22 @@ Proof. exact load_sequence. Qed.
 Theorem C18_accepted_is_valid : forall p es, accepted p = Some es -> p = Some (JObj es) /\ valid_table es.
 Proof. exact accepted_valid. Qed.
 
+(* ---- the same for json.Authenticator as TRANSLATED from the Python source on every run (harness/pytrans4.py ->
+   StoreGen.v; StoreGenEq.v proves the translated load / get_authkey equal to the model).  No axioms. *)
+From HP Require Import PyStore StoreGen StoreGenEq.
+Theorem C18_src_load_is_model : forall db parsed, Authenticator_load parsed db = SOk tt (load db parsed).
+Proof. exact load_src_eq. Qed.
+Theorem C18_src_all_or_nothing : forall db p,
+  (exists es, p = Some (JObj es) /\ valid_table es /\ Authenticator_load p db = SOk tt es) \/
+  ((forall es, p = Some (JObj es) -> ~ valid_table es) /\ Authenticator_load p db = SOk tt db).
+Proof. exact src_load_all_or_nothing. Qed.
+Theorem C18_src_sequence : forall ps db0, loads_src ps db0 = match last_accepted ps with Some es => es | None => db0 end.
+Proof. exact src_load_sequence. Qed.
+
 Print Assumptions C18_entry_rule.
 Print Assumptions C18_all_or_nothing.
 Print Assumptions C18_sequence.
 Print Assumptions C18_accepted_is_valid.
+Print Assumptions C18_src_load_is_model.
+Print Assumptions C18_src_all_or_nothing.
+Print Assumptions C18_src_sequence.
